@@ -10,7 +10,7 @@ Machine = hgm.FcnMachine
 PROP = {
     "id": "C17",
     "quick_n": 300,
-    "thorough_n": 4000,
+    "thorough_n": 3000,
     "rule": "one program = a record representation (dict, attribute object, bare scalar), wrapper "
             "scenarios (a lambda / def / string expression from the arithmetic-boolean grammar, a "
             "random sequence of serializable / cached / named incl. repeated wrappers, the default "
